@@ -314,6 +314,21 @@ def ex_nest(rng, depth):
             ["DUP 0 7"] + cmp7)
 
 
+def ex_wide(rng, n, elem=None):
+    """many sibling containers in one text (a counter or buffer kept per parse call sees every one of them): n elements
+    or members, each an empty or one-element container, optionally under a few levels of nesting"""
+    elem = elem or rng.choice([["{}"], ["[]"], ["{}", "[]"], ['{"a":1}', "[2]", "{}", "[]", '""', "0"], ["[[]]", '{"k":{}}']])
+    items = [rng.choice(elem) for _ in range(n)]
+    if n <= 300 and rng.random() < 0.3:              # (the model's member lookup is quadratic: objects stay smaller)
+        body = "{" + ",".join('"k%d":%s' % (i, it) for i, it in enumerate(items)) + "}"
+    else:
+        body = "[" + rng.choice([",", ", ", " ,\n"]).join(items) + "]"
+    d = rng.choice([0, 0, 1, 3])
+    text = "[" * d + body + "]" * d
+    return ["RESET", "PARSE 0 %s" % hx(text.encode()), "SIZE 0", "PRINT 0 0 0 0", "PARSELAST 6", "RT 0 6", "DESTROY 6",
+            "PRINT 0 1 0 0", "PARSELAST 6", "RT 0 6", "CMP 0 6", "DESTROY 6", "DUP 0 7", "CMP 0 7"]
+
+
 def from_tlc(s):
     ops = ["RESET"]
     for o in s["ops"]:
@@ -437,7 +452,13 @@ def run(ctx):
         execs.append(ex_array(rng, at_size=True))
     for _ in range(560 * mult):
         execs.append(ex_text(rng, rng.choice([0, 1, 2, 3, 4, 4])))
-    nest = [ex_nest(rng, d) for d in ([NEST_LIMIT, NEST_LIMIT, NEST_LIMIT - 1, 100, 64, 30] if not thorough else [NEST_LIMIT] * 6 + [NEST_LIMIT - 1, 999, 500, 100, 100, 64, 64])]
+    wide = []
+    # every kind of sibling x a count beyond the parser's nesting limit (the model's parser is quadratic in the count)
+    for elem in (["{}"], ["[]"], ['{"a":1}', "[2]"]) if not thorough else (["{}"], ["[]"], ['{"a":1}'], ["[2]"], ["{}", "[]"], ["[[]]", '{"k":{}}'], ['""', "0"]):
+        wide.append(ex_wide(rng, NEST_LIMIT + 100 if len(elem[0]) == 2 or thorough else 400, elem))
+    for n in ([300, 40, 40] if not thorough else [1500, 999, 1000, 1001, 300, 300, 40, 40, 40]):
+        wide.append(ex_wide(rng, n))
+    nest = wide + [ex_nest(rng, d) for d in ([NEST_LIMIT, NEST_LIMIT, NEST_LIMIT - 1, 100, 64, 30] if not thorough else [NEST_LIMIT] * 6 + [NEST_LIMIT - 1, 999, 500, 100, 100, 64, 64])]
     ctx.extra["driver_executions"] = len(execs) + len(nest) - ctx.extra["tlc_generated_scripts"]
     for ex in execs:
         txt = "\n".join(ex)
